@@ -150,8 +150,12 @@ value_t select_command(call_scope_t& args)
 #if HAVE_IOCTL
       struct winsize ws;
 #endif
-      if (report.HANDLED(columns_))
-        cols = lexical_cast<std::size_t>(report.HANDLER(columns_).value);
+      if (report.HANDLED(columns_)) {
+        long columns_value = lexical_cast<long>(report.HANDLER(columns_).value);
+        if (columns_value < 0)
+          throw_(std::logic_error, _("The number of columns must not be negative"));
+        cols = static_cast<std::size_t>(columns_value);
+      }
       else if (const char * columns_env = std::getenv("COLUMNS"))
         cols = lexical_cast<std::size_t>(columns_env);
 #if HAVE_IOCTL
